@@ -31,7 +31,10 @@ type client interface {
 	Kill()
 }
 
-type inprocClient struct{ db *kv.DB }
+type inprocClient struct {
+	db    *kv.DB
+	stale *kv.DB // the handle this client closed last (a caller may still hold it)
+}
 
 func (c *inprocClient) Open(dir string) string {
 	o := defaultCfg.options(dir)
@@ -54,6 +57,7 @@ func (c *inprocClient) Open(dir string) string {
 func (c *inprocClient) Close() string {
 	db := c.db
 	c.db = nil
+	c.stale = db
 	var err error
 	func() {
 		defer func() {
@@ -70,6 +74,12 @@ func (c *inprocClient) Close() string {
 // directory): "write" = Put, a committed batch, a batch committed empty, Sync; "merge" = overwrite + Merge.
 func (c *inprocClient) Work(what string) string {
 	db := c.db
+	if what == "stalemerge" {
+		db = c.stale // Merge on a handle that was closed: whatever it returns, it must return and touch nothing
+	}
+	if db == nil {
+		return "not-open"
+	}
 	var err error
 	func() {
 		defer func() {
@@ -100,6 +110,10 @@ func (c *inprocClient) Work(what string) string {
 			e2 := db.Put([]byte("a"), []byte("m2"))
 			e3 := db.Merge()
 			err = first(e1, e2, e3)
+		case "stalemerge":
+			if e := db.Merge(); e != nil && strings.HasPrefix(e.Error(), "panic") {
+				err = e
+			}
 		}
 	}()
 	return procErrClass(err)
@@ -203,7 +217,7 @@ func procClientMain() {
 				fmt.Println("not-open")
 			}
 		case "work":
-			if c.IsOpen() {
+			if c.IsOpen() || f[1] == "stalemerge" {
 				fmt.Println(c.Work(f[1]))
 			} else {
 				fmt.Println("not-open")
@@ -222,7 +236,7 @@ type procEvent struct {
 }
 
 func (e procEvent) String() string {
-	if e.K == "open" || e.K == "close" || e.K == "write" || e.K == "merge" {
+	if e.K == "open" || e.K == "close" || e.K == "write" || e.K == "merge" || e.K == "stalemerge" {
 		return fmt.Sprintf("%s%d", e.K, e.C)
 	}
 	return e.K
@@ -310,6 +324,19 @@ func runProcSeq(clients []client, evs []procEvent, root string, res *TaskResult)
 			if r != "nil" {
 				return strings.Join(tr, " "), fmt.Sprintf("event %d %s: the holder's own calls failed: %s", i, ev, r)
 			}
+		case "stalemerge":
+			// a handle that was closed is used again (a timer-driven merge firing late, a caller's mistake): the call may
+			// fail any way it likes but must return, and must leave the directory - which may belong to somebody else by
+			// now - exactly as it is
+			before := dirFingerprint(dir) + "|" + dirFingerprint(dir+"-merge")
+			r := clients[ev.C].Work("stalemerge")
+			tr = append(tr, fmt.Sprintf("stalemerge%d=%s", ev.C, r))
+			if r == "panic" {
+				return strings.Join(tr, " "), fmt.Sprintf("event %d %s: Merge on a closed handle panicked or never returned (under the lock model a call that blocks for ever panics)", i, ev)
+			}
+			if after := dirFingerprint(dir) + "|" + dirFingerprint(dir+"-merge"); after != before {
+				return strings.Join(tr, " "), fmt.Sprintf("event %d %s: Merge on a closed handle changed the directory contents", i, ev)
+			}
 		case "close":
 			r := clients[ev.C].Close()
 			tr = append(tr, fmt.Sprintf("close%d=%s", ev.C, r))
@@ -339,12 +366,28 @@ func enumProcSeqs(nClients, depth int, visit func(evs []procEvent) bool) {
 		}
 		return false
 	}
+	closedOnce := func(c int) bool {
+		for _, e := range evs {
+			if e.K == "close" && e.C == c {
+				return true
+			}
+		}
+		return false
+	}
 	var rec func(holder int, corrupt bool, opened []bool) bool
 	rec = func(holder int, corrupt bool, opened []bool) bool {
 		if len(evs) == depth {
 			return visit(evs)
 		}
 		for c := 0; c < nClients; c++ {
+			if !opened[c] && closedOnce(c) && len(evs) < depth-1 && evs[len(evs)-1].K != "stalemerge" {
+				evs = append(evs, procEvent{"stalemerge", c})
+				ok := rec(holder, corrupt, opened)
+				evs = evs[:len(evs)-1]
+				if !ok {
+					return false
+				}
+			}
 			if !opened[c] {
 				// Open_c
 				evs = append(evs, procEvent{"open", c})
@@ -625,6 +668,123 @@ func c16RaceTaskH(nThreads, pb int, prepopulated, withHolder bool) func(res *Tas
 	}
 }
 
+// ---- a database whose directory is named like another database's merge directory -------------------------------
+// Merge works in the sibling directory "<dir>-merge". If THAT directory is itself an open database (B), nothing the
+// neighbour (A on "<dir>") does - Open, writes, Merge, Close, in every order - may touch it or make it openable a
+// second time. All orders of A's events around the checks are enumerated (B stays open throughout).
+func c16NeighbourTask(res *TaskResult) {
+	beginExecution()
+	evs := []string{"openA", "writeA", "mergeA", "closeA"}
+	states := map[uint64]bool{}
+	// every prefix-closed sequence over A's events (length <= 6) in which A is open when it writes / merges / closes
+	var seqs [][]string
+	var gen func(cur []string, open bool)
+	gen = func(cur []string, open bool) {
+		seqs = append(seqs, append([]string{}, cur...))
+		if len(cur) == 6 {
+			return
+		}
+		for _, e := range evs {
+			if (e == "openA") == open {
+				continue
+			}
+			gen(append(cur, e), e != "closeA")
+		}
+	}
+	gen(nil, false)
+	for n, seq := range seqs {
+		progressTick.Add(1)
+		res.Execs++
+		root := filepath.Join(scratchRoot(), fmt.Sprintf("nb%d", n))
+		os.MkdirAll(root, 0o755)
+		dirA, dirB := filepath.Join(root, "db"), filepath.Join(root, "db-merge")
+		bad := func() string {
+			b, err := kv.Open(defaultCfg.options(dirB))
+			if err != nil {
+				return "setup: " + err.Error()
+			}
+			defer b.Close()
+			b.Put([]byte("x"), []byte("B's value"))
+			b.Sync()
+			want := dirFingerprint(dirB)
+			var a *kv.DB
+			defer func() {
+				if a != nil {
+					a.Close()
+				}
+			}()
+			for i, e := range seq {
+				res.Transitions++
+				var err error
+				func() {
+					defer func() {
+						if r := recover(); r != nil {
+							err = fmt.Errorf("panic: %v", r)
+						}
+					}()
+					switch e {
+					case "openA":
+						a, err = kv.Open(defaultCfg.options(dirA))
+					case "writeA":
+						err = a.Put([]byte("a"), []byte(fmt.Sprint("v", i)))
+					case "mergeA":
+						err = a.Merge() // may refuse: its merge directory is somebody's database
+						if err != nil && !strings.HasPrefix(err.Error(), "panic") {
+							err = nil
+						}
+					case "closeA":
+						err = a.Close()
+						a = nil
+					}
+				}()
+				if err != nil {
+					return fmt.Sprintf("event %d %s failed: %v", i, e, err)
+				}
+				res.Evals++
+				if got := dirFingerprint(dirB); got != want {
+					return fmt.Sprintf("after event %d %s of the neighbour on %q the contents of %q (an open database) changed: %s", i, e, "db", "db-merge", listDirPlain(dirB))
+				}
+				if c, err := kv.Open(defaultCfg.options(dirB)); err == nil {
+					c.Close()
+					return fmt.Sprintf("after event %d %s of the neighbour, a second Open of %q succeeded while its first handle is open", i, e, "db-merge")
+				} else if !errors.Is(err, kv.ErrDatabaseIsUsing) {
+					return fmt.Sprintf("after event %d %s of the neighbour, a second Open of %q returned %v (want the directory-in-use error)", i, e, "db-merge", err)
+				}
+				if v, err := b.Get([]byte("x")); err != nil || string(v) != "B's value" {
+					return fmt.Sprintf("after event %d %s of the neighbour, the open database on %q reads x = %q, %v", i, e, "db-merge", v, err)
+				}
+			}
+			return ""
+		}()
+		os.RemoveAll(root)
+		if strings.HasPrefix(bad, "setup:") {
+			res.Err = "C16 neighbour harness: " + bad
+			return
+		}
+		states[hash64(strings.Join(seq, " "), bad)] = true
+		if bad != "" {
+			addViolation(res, &Violation{Prop: "C16", Clause: "neighbour-merge-directory", Sig: "neighbour-merge-directory",
+				Detail: fmt.Sprintf("database B open on \"db-merge\", neighbour A on \"db\" runs %v\n%s", seq, bad),
+				Replay: mustJSON(map[string]any{"engine": "neighbour", "property": "C16", "events": seq})})
+			break
+		}
+	}
+	res.Nontrivial++
+	for h := range states {
+		res.States = append(res.States, h)
+	}
+	res.Samples = append(res.Samples, fmt.Sprintf("%d event sequences of the neighbour (openA writeA mergeA closeA, length <= 6) next to an open database on db-merge", len(seqs)))
+}
+
+func listDirPlain(dir string) string {
+	ents, _ := os.ReadDir(dir)
+	var out []string
+	for _, e := range ents {
+		out = append(out, e.Name())
+	}
+	return strings.Join(out, " ")
+}
+
 func init() {
 	register(&Check{
 		Prop:   "C16",
@@ -652,6 +812,7 @@ func init() {
 				{Level: "close-vs-opens", Name: "holder closes while 1 opens", Fn: c16RaceTaskH(1, -1, true, true)},
 				{Level: "close-vs-opens", Name: "holder closes while 2 open", Fn: c16RaceTaskH(2, -1, true, true)},
 				{Level: "close-vs-opens", Name: "holder closes while 3 open", Fn: c16RaceTaskH(3, 3, true, true)},
+				{Level: "neighbour-merge-directory", Name: "neighbour whose merge directory is an open database", Fn: c16NeighbourTask},
 			}
 		},
 		Bounds: func(tier string) map[string]any {
@@ -668,6 +829,16 @@ func init() {
 				Events   []procEvent `json:"events"`
 			}
 			json.Unmarshal(raw, &m)
+			if m.Engine == "neighbour" {
+				var res TaskResult
+				c16NeighbourTask(&res)
+				for _, v := range res.Violations {
+					fmt.Printf("VIOLATION clause=%s\n%s\n", v.Clause, v.Detail)
+					os.Exit(1)
+				}
+				fmt.Println("no violation on this tree")
+				return
+			}
 			if m.Engine != "proc" {
 				fmt.Println("replay of racing-Open schedules: re-run ./run.sh C16 quick")
 				return
